@@ -87,6 +87,9 @@ def one_case(cid, rng, scheme, s, genic, cov, thorough):
     # chunk size: cycled deterministically so that every class meets 1 and 2 (chunking active) in each tier
     mem = [1, 2, None, 1024][cid % 4] if not cov else [1, 1, 2][cid % 3]
     chroms = layout(rng, multi=mem in (1, 2))
+    lone = cid % 3 == 0
+    if lone:
+        chroms.append([0.0])                     # systematically: a chromosome of exactly ONE marker, at which the parents differ
     L = sum(len(c) for c in chroms)
     n = rng.randrange(2, 5) if K < 4 else rng.randrange(2, 4)
     T = rng.choice([2, 3]) if cov else rng.randrange(1, 3)
@@ -94,6 +97,8 @@ def one_case(cid, rng, scheme, s, genic, cov, thorough):
     if rng.random() < 0.3 and n > 1:
         A[1] = A[0]                              # genetically identical parents
     u = np.array([[rng.choice([-2, -1, 0, 1, 2]) for _ in range(T)] for _ in range(L)], dtype=float)
+    if lone:
+        A[:, -1] = [i % 2 for i in range(n)]; u[-1, :] = rng.choice([-2, -1, 1, 2])
     chrgrp = np.array([k + 1 for k, ch in enumerate(chroms) for _ in ch], dtype="int64")
     genpos = np.array([x for ch in chroms for x in ch], dtype=float)
     pg = DensePhasedGenotypeMatrix(np.stack([A, A]), taxa=np.array(["p%d" % i for i in range(n)], dtype=object),
